@@ -1,18 +1,19 @@
 #!/bin/bash
 # mutrun.sh <patch.diff> <out-log> <check-spec>...   check-spec = Cxx or Cxx:only-regex
-# Applies a seeded change to /repo, runs the given checks (quick tier, no evidence), and ALWAYS restores /repo.
+# Runs the given checks (quick tier, no evidence) against a SCRATCH COPY of /repo with the seeded change applied
+# (VERIF_REPO points the checks at the copy); /repo itself is not touched.  For the record run on /repo itself use mutrun_inplace.sh.
 P="$1"; OUT="$2"; shift 2
-cd /repo || exit 3
-if ! git diff --quiet; then echo "REPO DIRTY" | tee -a "$OUT"; exit 3; fi
-git apply "$P" || { echo "PATCH DOES NOT APPLY: $P" | tee -a "$OUT"; exit 3; }
-trap 'git -C /repo checkout -- . ' EXIT
+W=/tmp/mut/run-$$
+mkdir -p /tmp/mut && rm -rf $W && rsync -a --exclude /target --exclude /.git /repo/ $W/ || exit 3
+( cd $W && patch -s -p1 < "$P" ) || { echo "PATCH DOES NOT APPLY: $P" | tee -a "$OUT"; rm -rf $W; exit 3; }
+trap 'rm -rf $W' EXIT
 echo "=== $(date +%T) mutation $P" >> "$OUT"
 cd /verif
 for spec in "$@"; do
   c="${spec%%:*}"; only=""; [[ "$spec" == *:* ]] && only="--only ${spec#*:}"
-  timeout 3600 ./check "$c" --no-evidence $only > /tmp/mutrun.$$.log 2>&1
+  VERIF_REPO=$W timeout 3600 ./check "$c" --no-evidence $only > $W.log 2>&1
   rc=$?
   echo "--- check $spec rc=$rc" >> "$OUT"
-  grep -E "VIOLATION|violated:|INCONCLUSIVE|KNOWN-FINDING|tier=" /tmp/mutrun.$$.log | cut -c1-400 >> "$OUT"
+  grep -E "VIOLATION|violated:|INCONCLUSIVE|KNOWN-FINDING|tier=" $W.log | cut -c1-400 >> "$OUT"
 done
-rm -f /tmp/mutrun.$$.log
+rm -f $W.log
